@@ -105,6 +105,12 @@ func NewPrivateKeyFromXML(xmlInput string, demo bool) (*PrivateKey, error) {
 		if err := privk.Validate(); err != nil {
 			return nil, err
 		}
+		if privk.P.Cmp(privk.Q) == 0 {
+			return nil, errors.New("P and Q are equal")
+		}
+		if keylength := new(big.Int).Mul(privk.P, privk.Q).BitLen(); DefaultSystemParameters[keylength] == nil {
+			return nil, fmt.Errorf("unknown keylength %d", keylength)
+		}
 	}
 
 	privk.N = new(big.Int).Mul(privk.P, privk.Q)
@@ -282,6 +288,9 @@ func NewPublicKeyFromBytes(bts []byte) (*PublicKey, error) {
 	}
 	if pubk.N == nil || pubk.Z == nil || pubk.S == nil {
 		return nil, errors.New("public key is missing one of the elements n, Z, S")
+	}
+	if len(pubk.R) == 0 {
+		return nil, errors.New("public key has no bases")
 	}
 	keylength := pubk.N.BitLen()
 	if sysparam, ok := DefaultSystemParameters[keylength]; ok {
